@@ -13,6 +13,7 @@ import (
 	"fmt"
 	"regexp"
 	"strings"
+	"time"
 )
 
 type Rec struct {
@@ -418,6 +419,15 @@ type CodeError struct {
 
 func (e CodeError) Error() string { return e.Msg }
 
+// WrapError has an Unwrap method: errors.Is / As look inside it (not inside CodeError).
+type WrapError struct {
+	Msg   string
+	Inner error
+}
+
+func (e WrapError) Error() string { return e.Msg }
+func (e WrapError) Unwrap() error { return e.Inner }
+
 var nameRe = regexp.MustCompile(`^[a-z][a-z0-9]*(?:-[a-z0-9]+)*$`)
 
 var kinds = map[string]int{"x": 1, "y": 2, "z": 3}
@@ -547,6 +557,403 @@ func NilSlices(use bool) (int, []string) {
 	return len(xs), xs
 }
 
+// ---- third batch: any, sentinels and errors.Is / As / Join, closures ----
+
+type Label string
+
+type Attr struct {
+	Key      any
+	Critical bool
+	Value    any
+}
+
+// AnyKinds: comma-ok assertions distinguish the dynamic types exactly.
+func AnyKinds(x any) (string, bool, int, bool, int64, bool, bool, bool, Label, bool) {
+	s, ok1 := x.(string)
+	i, ok2 := x.(int)
+	j, ok3 := x.(int64)
+	b, ok4 := x.(bool)
+	l, ok5 := x.(Label)
+	return s, ok1, i, ok2, j, ok3, b && ok4, x == nil, l, ok5
+}
+
+// AnyAssert: an unchecked assertion panics on any other dynamic type.
+func AnyAssert(x any) string {
+	return x.(string) + "!"
+}
+
+// AnyEq: an interface value against constants and against another interface value
+// (comparing two values of the same uncomparable type panics).
+func AnyEq(x, y any) (bool, bool, bool, bool) {
+	return x == "a", x == 3, x != y, x == Label("a")
+}
+
+// AnyFields: any-typed fields, conversion of concrete values to any.
+func AnyFields(attrs []Attr, key string) (any, bool, int) {
+	n := 0
+	for _, a := range attrs {
+		if k, ok := a.Key.(string); ok && k != "" {
+			n++
+		}
+		if a.Key == key {
+			return a.Value, a.Critical, n
+		}
+	}
+	var none any = key
+	return none, false, n
+}
+
+func containsAny(s []any, v any) bool {
+	for _, vs := range s {
+		if vs == v {
+			return true
+		}
+	}
+	return false
+}
+
+func ContainsAnyOf(s []any, v any) bool { return containsAny(s, v) }
+
+var ErrNotFound = errors.New("not found")
+var ErrOther = fmt.Errorf("other %d", 1)
+var errAlias = ErrNotFound
+
+// MakeErr builds the errors the next functions examine.
+func MakeErr(k int) error {
+	switch k {
+	case 0:
+		return nil
+	case 1:
+		return ErrNotFound
+	case 2:
+		return fmt.Errorf("wrapped: %w", ErrNotFound)
+	case 3:
+		return errors.New("not found")
+	case 4:
+		return CodeError{Msg: "code", Inner: ErrOther}
+	case 5:
+		return &CodeError{Msg: "ptr"}
+	case 6:
+		return fmt.Errorf("both: %w and %w", ErrOther, CodeError{Msg: "in"})
+	case 7:
+		return errors.Join(nil, fmt.Errorf("j: %w", ErrNotFound), ErrOther)
+	case 8:
+		return errors.Join(nil, nil)
+	case 9:
+		return WrapError{Msg: "w", Inner: fmt.Errorf("deep: %w", ErrNotFound)}
+	case 10:
+		return &WrapError{Msg: "w", Inner: CodeError{Msg: "c"}}
+	}
+	return errAlias
+}
+
+// ErrQueries: identity, Is through wrap chains and joins, As by dynamic type.
+func ErrQueries(k int) (bool, bool, bool, bool, bool, bool, bool) {
+	err := MakeErr(k)
+	var ce CodeError
+	return err == ErrNotFound, err != ErrOther, errors.Is(err, ErrNotFound), errors.Is(err, ErrOther),
+		errors.As(err, &CodeError{}), errors.As(err, &ce), err == errAlias
+}
+
+func AsPointer(k int) bool {
+	var target *CodeError
+	return errors.As(MakeErr(k), &target)
+}
+
+// Closures: function literals that only read variables that no longer change.
+func Closures(xs []string, sep string) (string, int) {
+	prefix := "<" + sep
+	wrap := func(s string) string { return prefix + s + ">" }
+	count := func(s string) int {
+		n := 0
+		for _, x := range xs {
+			if x == s {
+				n++
+			}
+		}
+		return n
+	}
+	out := ""
+	for _, x := range xs {
+		out += wrap(x)
+	}
+	return out, count(sep)
+}
+
+// ClosurePanics: a closure with a partial operation, called only when guarded.
+func ClosurePanics(xs []string, i int) string {
+	at := func(k int) string { return xs[k] }
+	if i < 0 {
+		return "neg"
+	}
+	return at(i) + at(0)
+}
+
+func apply2(f func(string) string, s string) string { return f(f(s)) }
+
+// ClosureArg: a closure handed to another function.
+func ClosureArg(s, t string) string {
+	return apply2(func(x string) string { return x + t }, s)
+}
+
+// ---- fourth batch: arrays, time literals, a join point that collapses ----
+
+var prefixes = [...]string{"io.x", "io.yy"}
+
+func ArrayRange(s string) (bool, int, string) {
+	for i, p := range prefixes {
+		if strings.HasPrefix(s, p) {
+			return true, i, prefixes[1]
+		}
+	}
+	return false, len(prefixes), prefixes[0]
+}
+
+func TimeZero() (bool, bool) {
+	t := time.Time{}
+	var u time.Time
+	return t.IsZero(), t.Equal(u)
+}
+
+// JoinCollapse: what follows the if is reached from a loop (break and end) and
+// from the else path; the loop after it uses variables declared before the if.
+func JoinCollapse(xs []string, flag bool) (string, int) {
+	a := "A" + strings.Join(xs, "")
+	b := len(xs)
+	n := 0
+	if flag && b > 1 {
+		for _, x := range xs {
+			if x == "stop" {
+				break
+			}
+			n++
+		}
+	}
+	out := a
+	for _, x := range xs {
+		out += x + a
+		n += b
+	}
+	return out, n
+}
+
+// ---- fifth batch: in/out pointers, variadic functions ----
+
+type Counter struct {
+	N   int
+	Log []string
+}
+
+// Bump writes through its pointer receiver.
+func (c *Counter) Bump(k int) int {
+	c.N += k
+	c.Log = append(c.Log, "b")
+	return c.N
+}
+
+func (c *Counter) Reset() { *c = Counter{N: 1} }
+
+// fill writes through a pointer parameter (NonNil in the table).
+func fill(r *Rec, s string) error {
+	if s == "" {
+		return errors.New("empty")
+	}
+	r.Name = s
+	r.N++
+	return nil
+}
+
+func InOutPtr(s string, k int) (int, string, int, error) {
+	var r Rec
+	err := fill(&r, s)
+	c := &Counter{}
+	a := c.Bump(k)
+	if k > 2 {
+		c.Reset()
+	}
+	b := c.Bump(1)
+	if err := fill(&r, s+s); err != nil {
+		return a + b, r.Name, -1, err
+	}
+	return a + b, r.Name, r.N + len(c.Log), err
+}
+
+func joinAll(sep string, parts ...string) string { return strings.Join(parts, sep) }
+
+func Variadic(a, b string) (string, string, string) {
+	xs := []string{a, b}
+	return joinAll("-", a, b, "c"), joinAll("+"), joinAll("/", xs...)
+}
+
+// ---- sixth batch: type switches, err.Error() in messages, bytes, bit operators, slices of slices ----
+
+func ErrKind(k int) (string, error) {
+	err := MakeErr(k)
+	switch err.(type) {
+	case nil:
+		return "nil", nil
+	case CodeError, *WrapError:
+		return "code", CodeError{Msg: "again: " + err.Error()}
+	case *CodeError:
+		return "ptr", fmt.Errorf("ptr %s", err.Error())
+	default:
+		if err != nil {
+			return "other", errors.New("other: " + err.Error())
+		}
+		return "never", nil
+	}
+}
+
+func AnySwitch(x any) int {
+	switch x.(type) {
+	case nil:
+		return 0
+	case string, Label:
+		return 1
+	case int:
+		return 2
+	case bool:
+		return 3
+	}
+	return 4
+}
+
+func Bytes(s string, n int) (int, string, []byte, string) {
+	b := []byte(s)
+	h := [3]byte{1, 2, 3}
+	all := h[:]
+	pre := b[:n]
+	return len(b) + len(all), string(pre), b[n:], string(b[1:n])
+}
+
+func Bits(a, b int) (int, int, int, int, int, int, bool) {
+	const mode = 0111
+	return a & b, a | b, a ^ b, a &^ b, a << 3, a >> 1, a&mode != 0
+}
+
+type Holder struct{ ch chan int }
+
+// Empty: a struct none of whose fields is translatable.
+func (h *Holder) Tag(s string) string { return "h:" + s }
+
+func UseHolder(s string) string {
+	h := &Holder{}
+	return h.Tag(s)
+}
+
+// ---- seventh batch: a callback handed to an oracle, owned pointers that may be nil, nilable interfaces ----
+
+// PagesOf is what the oracle listPages delivers for n (also used by the selftest to build the Coq oracle).
+func PagesOf(n int) ([][]string, error) {
+	var pages [][]string
+	for i := 0; i < n && i < 4; i++ {
+		pages = append(pages, []string{fmt.Sprint("p", i), "x", fmt.Sprint("q", i)}[:1+i%3])
+	}
+	if n%3 == 2 {
+		return pages, errors.New("listing failed")
+	}
+	return pages, nil
+}
+
+// listPages is an oracle of the translation (Callback: "fn"): it calls fn on every page in
+// order, stops at the first error fn returns and returns it, else returns its own error.
+func listPages(n int, fn func(page []string) error) error {
+	pages, ferr := PagesOf(n)
+	for _, p := range pages {
+		if err := fn(p); err != nil {
+			return err
+		}
+	}
+	return ferr
+}
+
+var errStop = errors.New("stop")
+
+// UsePages: the callback assigns captured variables, returns from inside a loop, and stops early.
+func UsePages(n, limit int) (string, int, bool, error) {
+	seen := 0
+	out := ""
+	done := false
+	err := listPages(n, func(page []string) error {
+		for _, s := range page {
+			if seen >= limit {
+				break
+			}
+			seen++
+			if s == "x" {
+				continue
+			}
+			out += s + ";"
+			if len(out) > 12 {
+				done = true
+				return errStop
+			}
+		}
+		if seen >= limit {
+			return fmt.Errorf("limit %d reached", limit)
+		}
+		return nil
+	})
+	if err != nil && !errors.Is(err, errStop) {
+		return out, seen, done, err
+	}
+	return out + "|", seen, done, nil
+}
+
+// newRec is an oracle with FreshResults: the record it returns may be nil and is owned by the caller.
+func newRec(s string) (*Rec, error) {
+	if s == "" {
+		return nil, errors.New("no name")
+	}
+	if s == "nil" {
+		return nil, nil
+	}
+	return &Rec{Name: s, N: len(s)}, nil
+}
+
+func OwnedPtr(s string) (string, int, error) {
+	r, err := newRec(s)
+	if err != nil {
+		return "", 0, err
+	}
+	if r == nil {
+		return "nil", -1, nil
+	}
+	r.Name = r.Name + "!"
+	r.N++
+	return r.Name, r.N, nil
+}
+
+// OwnedPtrPanics writes through the fresh pointer without a nil check.
+func OwnedPtrPanics(s string) int {
+	r, _ := newRec(s)
+	r.N += 2
+	return r.N
+}
+
+// Finder is a one-method interface declared Nilable in the table: a value may be nil.
+type Finder interface {
+	Find(k string) (string, bool)
+}
+
+type MapFinder map[string]string
+
+func (m MapFinder) Find(k string) (string, bool) { v, ok := m[k]; return v, ok }
+
+func UseFinder(f Finder, k string) (string, bool, bool) {
+	if f == nil {
+		return "none", false, true
+	}
+	v, ok := f.Find(k)
+	return v, ok, f == nil
+}
+
+// UseFinderPanics calls a method on a possibly nil interface value.
+func UseFinderPanics(f Finder, k string) string {
+	v, _ := f.Find(k)
+	return v
+}
+
 // ---- constructs that must be refused ----
 
 func RefusedLabel(xs []string) int {
@@ -570,6 +977,23 @@ func RefusedClosure(xs []string) int {
 		f()
 	}
 	return n
+}
+
+// the captured variable changes after the literal was created
+func RefusedCaptureLater(s string) string {
+	p := "a"
+	f := func() string { return p + s }
+	p = "b"
+	return f()
+}
+
+func RefusedErrCompare(k int) bool {
+	return MakeErr(k) == MakeErr(1)
+}
+
+func RefusedAssertStruct(x any) bool {
+	_, ok := x.(Rec)
+	return ok
 }
 
 func RefusedAlias(m map[string]int) int {
@@ -639,7 +1063,18 @@ var Funcs = map[string]any{
 	"StructErr": StructErr, "LocalRegex": LocalRegex, "UseGetter": UseGetter, "Dedup": Dedup, "GlobalMap": GlobalMap,
 	"RangeForms": RangeForms, "ElseIfNil": ElseIfNil, "ReturnStruct": ReturnStruct, "SwitchInit": SwitchInit,
 	"EvalOrder": EvalOrder, "NilSlices": NilSlices,
+	"AnyKinds": AnyKinds, "AnyAssert": AnyAssert, "AnyEq": AnyEq, "AnyFields": AnyFields, "ContainsAnyOf": ContainsAnyOf,
+	"MakeErr": MakeErr, "ErrQueries": ErrQueries, "AsPointer": AsPointer, "Closures": Closures, "ClosurePanics": ClosurePanics,
+	"ClosureArg": ClosureArg,
+	"ArrayRange": ArrayRange, "TimeZero": TimeZero, "JoinCollapse": JoinCollapse,
+	"InOutPtr": InOutPtr, "Variadic": Variadic,
+	"ErrKind": ErrKind, "AnySwitch": AnySwitch, "Bytes": Bytes, "Bits": Bits, "UseHolder": UseHolder,
+	"UsePages": UsePages, "OwnedPtr": OwnedPtr, "OwnedPtrPanics": OwnedPtrPanics,
+	"UseFinder": UseFinder, "UseFinderPanics": UseFinderPanics,
 }
+
+// NewRec re-exports the oracle newRec for the selftest.
+func NewRec(s string) (*Rec, error) { return newRec(s) }
 
 // MapGetter implements Getter for the selftest.
 type MapGetter map[string]string
